@@ -147,7 +147,8 @@ pub fn run_enum_in_worker(ctx: &Ctx, name: &str, crash_sig: &str, report: &mut R
 fn run_worker_mode(ctx: &Ctx, mode: &str, name: &str, crash_sig: &str, report: &mut Report, exe: Option<&str>) {
 	let mut child = match Command::new(exe.map(std::path::PathBuf::from).unwrap_or_else(self_exe))
 		.args([mode, ctx.property, ctx.tier_name(), name])
-		.env("ASAN_OPTIONS", "detect_leaks=1:abort_on_error=1:halt_on_error=1")
+		// leaks are attributed per case by the ledger and the counting allocator; an exit-time LSan report could not be
+		.env("ASAN_OPTIONS", "detect_leaks=0:abort_on_error=1:halt_on_error=1")
 		.stdout(Stdio::piped())
 		.stderr(Stdio::piped())
 		.spawn()
